@@ -151,6 +151,12 @@ XH_FAMILIES = {
     "redam": dict(heavy={1: "C", 2: "O", 3: "N"}, hyd=[4, 5, 6],
                   G=[(1, 2, 2), (3, 4, 1), (5, 6, 1)], H=[(1, 3, 1), (1, 5, 1), (2, 4, 1), (2, 6, 1)],
                   sub_bonds=[(1, 2, 2), (1, 7, 1), (3, 8, 1)], sub_h={1: 1, 2: 0, 3: 2}),
+    # N-N coupling: N1 loses one hydrogen to the alkoxide oxygen and one into H-H (with a hydrogen of N2); the two nitrogens
+    # can take either role in the heavy-atom match of the centre
+    "ncouple": dict(heavy={1: "N", 2: "N", 3: "O"}, hyd=[4, 5, 6],
+                    G=[(1, 4, 1), (1, 5, 1), (2, 6, 1)], H=[(1, 2, 1), (3, 4, 1), (5, 6, 1)],
+                    charge_G={3: -1}, charge_H={1: -1},
+                    sub_bonds=[(1, 7, 1), (2, 8, 1), (3, 9, 1)], sub_h={1: 2, 2: 2, 3: 0}),
     "enol": dict(heavy={1: "C", 3: "C", 4: "O"}, hyd=[2],
                  G=[(1, 2, 1), (1, 3, 1), (3, 4, 2)], H=[(1, 3, 2), (3, 4, 1), (4, 2, 1)],
                  sub_bonds=[(1, 3, 1), (3, 4, 2), (3, 7, 1)], sub_h={1: 1, 3: 0, 4: 0}),
@@ -196,6 +202,8 @@ def h_explicit(E, family):
         Ht.add_edge(u, v, order=o)
     for v, c in fam.get("charge_H", {}).items():
         Ht.nodes[v]["charge"] = c
+    for v, c in fam.get("charge_G", {}).items():
+        Gt.nodes[v]["charge"] = c
     tmpl_its = ITSConstruction.ITSGraph(Gt, Ht)
     rc = tmpl_its if fam.get("full") else get_rc(tmpl_its)
     # substrate: the template's heavy skeleton with implicit hydrogens, substituents with symbolic labels, and a
@@ -268,7 +276,7 @@ def fold_heavy_h(g):
     return g2
 
 
-def h_explicit_sym(E, n, nh, invert):
+def h_explicit_sym(E, n, nh, invert, free=False, kind="rc", dup=False):
     """a symbolic reaction with explicit centre hydrogens (harness.reactor_common.sym_xh_reaction); its centre template is
     applied (default reactor flags) to the reaction's own reactants with up to one extra implicit hydrogen per carbon -
     forwards - or, inverted, to its own products"""
@@ -277,16 +285,25 @@ def h_explicit_sym(E, n, nh, invert):
     from synkit.Synthesis.Reactor.syn_reactor import SynReactor
     from harness.reactor_common import NoCanon, sym_xh_reaction, as_parsed
 
-    G, H, hyd, att = sym_xh_reaction(E, n, nh, no_relay=True)
+    G, H, hyd, att = sym_xh_reaction(E, n, nh, no_relay=True, free=free, omax=0 if free else 1)
+    if free:  # the centre describes the reaction only if every atom that changes is in it
+        rc0 = get_rc(ITSConstruction.ITSGraph(G, H))
+        E.assume(AND([EQ(G.nodes[v]["charge"], H.nodes[v]["charge"]) for v in G.nodes if v not in rc0]))
     its = ITSConstruction.ITSGraph(G, H)
-    rc = get_rc(its)
+    rc = get_rc(its) if kind == "rc" else its
     sub = as_parsed(H if invert else G, hyd)
     for v in list(sub.nodes):
         if v <= n and int(E.int("xh%d" % v, 0, 1)):
             sub.nodes[v]["hcount"] = sub.nodes[v]["hcount"] + 1
+    if dup:
+        # a second copy of a one-atom molecule of the substrate (two waters): an equivalent site for that template atom
+        lone = [v for v in sub.nodes if v <= n and sub.degree(v) == 0]
+        E.assume(bool(lone))
+        v = lone[-1]
+        sub.add_node(n + nh + 1, **dict(sub.nodes[v]))
     res = SynReactor(substrate=sub, template=rc, canonicaliser=NoCanon(), strategy="all", invert=invert).its_list
     tmpl_its = ITSConstruction.ITSGraph(H, G) if invert else its
-    _check_xh_results(E, res, sub, tmpl_its, dict(n=n, nh=nh, invert=invert, n_results=len(res),
+    _check_xh_results(E, res, sub, tmpl_its, dict(n=n, nh=nh, invert=invert, kind=kind, dup=dup, n_results=len(res),
                                                    attach={"%s%d" % k: v for k, v in att.items()}))
 
 
@@ -317,4 +334,14 @@ def shards(tier, seed):
     for nh in ((1, 2) if q else (1, 2, 3)):
         for invert in (False, True):
             sh.append(dict(h="explicit_sym", params=dict(n=2, nh=nh, invert=invert)))
+    for n, nh in ((2, 1), (1, 2), (1, 3)) + (() if q else ((2, 2),)):
+        for invert in (False, True):
+            sh.append(dict(h="explicit_sym", params=dict(n=n, nh=nh, invert=invert, free=True)))
+    for invert in (False, True):
+        sh.append(dict(h="explicit_sym", params=dict(n=1, nh=3, invert=invert, free=True, kind="its")))
+        sh.append(dict(h="explicit_sym", params=dict(n=2, nh=3, invert=invert, dup=True)))
+        if not q:
+            sh.append(dict(h="explicit_sym", params=dict(n=2, nh=2, invert=invert, kind="its")))
+            sh.append(dict(h="explicit_sym", params=dict(n=2, nh=3, invert=invert, kind="its")))
+            sh.append(dict(h="explicit_sym", params=dict(n=2, nh=2, invert=invert, dup=True)))
     return sh
